@@ -999,7 +999,7 @@ def _plan_which(sc):
 
 
 def system_checks(ctx):
-    n = ctx.n(32, 400)
+    n = ctx.n(20, 400)
     scs = list(targeted().values()) + class_scenarios(ctx) + scenarios(ctx, n)
     try:
         res = run_impl(scs)
